@@ -43,6 +43,19 @@ pub fn eval(t: &str, m: &Value, rng: &mut Rng) -> bool {
             };
             vhost::vhost_user::verif_hdr_is_valid(ch, b.try_into().unwrap())
         }
+        "u64" | "vring_state" | "gpu_edid_req" | "gpu_cursor_pos" | "gpu_scanout" | "gpu_update" => {
+            for w in m["w"].as_array().unwrap() {
+                b.extend(limbs_bytes(w, 4));
+            }
+            match t {
+                "u64" => check::<VhostUserU64>(&b),
+                "vring_state" => check::<VhostUserVringState>(&b),
+                "gpu_edid_req" => check::<vhost::vhost_user::gpu_message::VhostUserGpuEdidRequest>(&b),
+                "gpu_cursor_pos" => check::<vhost::vhost_user::gpu_message::VhostUserGpuCursorPos>(&b),
+                "gpu_scanout" => check::<vhost::vhost_user::gpu_message::VhostUserGpuScanout>(&b),
+                _ => check::<vhost::vhost_user::gpu_message::VhostUserGpuUpdate>(&b),
+            }
+        }
         "memory" => {
             b.extend(f("n", 4));
             b.extend(f("padding", 4));
@@ -137,6 +150,11 @@ pub fn random_msg(t: &str, rng: &mut Rng) -> Value {
             let size = if rng.bool() { rng.below(4200) as u32 } else { r32(rng) };
             json!({"code": l2(if rng.bool() { rng.below(50) as u32 } else { r32(rng) }), "flags": l2(flags), "size": l2(size)})
         }
+        "u64" => json!({"w": [l2(r32(rng)), l2(r32(rng))]}),
+        "vring_state" => json!({"w": [l2(r32(rng)), l2(r32(rng))]}),
+        "gpu_edid_req" => json!({"w": [l2(r32(rng))]}),
+        "gpu_cursor_pos" | "gpu_scanout" => json!({"w": [l2(r32(rng)), l2(r32(rng)), l2(r32(rng))]}),
+        "gpu_update" => json!({"w": [l2(r32(rng)), l2(r32(rng)), l2(r32(rng)), l2(r32(rng)), l2(r32(rng))]}),
         "memory" => json!({"n": l2(if rng.bool() { rng.below(40) as u32 } else { r32(rng) }), "padding": l2(if rng.bool() { 0 } else { r32(rng) })}),
         "region" | "single_region" => {
             // correlated values around the wrap boundary
@@ -183,7 +201,7 @@ pub fn random_msg(t: &str, rng: &mut Rng) -> Value {
     }
 }
 
-pub const TYPES: [&str; 13] = ["hdr_fe", "hdr_be", "hdr_gpu", "memory", "region", "single_region", "vring_addr", "config",
+pub const TYPES: [&str; 19] = ["u64", "vring_state", "gpu_edid_req", "gpu_cursor_pos", "gpu_scanout", "gpu_update", "hdr_fe", "hdr_be", "hdr_gpu", "memory", "region", "single_region", "vring_addr", "config",
     "inflight", "log", "dev_state", "uuid", "mmap"];
 
 pub fn run(cases: &[Value], trace: &mut Trace, seed: u64, nrandom: usize) {
